@@ -2,7 +2,7 @@
    only.  [unmarshal] / [marshal] are the models of ReadPDU's decoder and of
    Marshal; the check evaluates both on the non-canonical frames the
    implementation accepted in the run (harness/c13.go). *)
-From V Require Import Model.Pdu Gen.PduLayouts Proofs.PduRoundtripProofs Proofs.PduStableProofs.
+From V Require Import Model.Pdu Model.PduHazards Gen.PduLayouts Proofs.PduRoundtripProofs Proofs.PduStableProofs Proofs.PduHazardProofs.
 From Coq Require Import Permutation.
 Open Scope N_scope.
 
@@ -51,6 +51,12 @@ Theorem C13_canonical_form : forall t, NoDup (map fst t) ->
   sorted_keys (kv_sort t) = true /\ forall e, In e (kv_sort t) <-> In e t.
 Proof. exact kv_sort_canonical. Qed.
 
+(* "Encoding the same value twice": literally the same pointer — Marshal rewrites its argument (command_id,
+   ShortMessage.Prepare); what it leaves there ([arg_after], compared with the Go argument after every successful call
+   by the check of C12) encodes to the same outcome, for every layout and value. *)
+Theorem C13_same_pointer_twice : forall lay vs, marshal lay (arg_after lay vs) = marshal lay vs.
+Proof. exact marshal_again. Qed.
+
 (* non-vacuity: a non-canonical deliver_sm_resp frame (TLVs unsorted, one duplicated, one empty) decodes, re-encodes to different octets, and is stable from there *)
 Example C13_inhabited :
   exists vs b', unmarshal (lay_of 2147483653) C13_ex_frame = Ok vs /\ marshal (lay_of 2147483653) vs = Ok b' /\
@@ -63,3 +69,4 @@ Print Assumptions C13_decoded_wf.
 Print Assumptions C13_deterministic_tlvs.
 Print Assumptions C13_deterministic_udh.
 Print Assumptions C13_canonical_form.
+Print Assumptions C13_same_pointer_twice.
